@@ -48,7 +48,10 @@ type c16TripCase struct {
 	Allow    []string       `json:"allow"`
 	Deny     []string       `json:"deny"`
 	DNSCache bool           `json:"dns_cache"`
-	NoLookup bool           `json:"no_lookup"` // wellKnownSRV = false
+	// CacheNoLists: the DNS cache handed to the client was itself built WITHOUT lists (the client's
+	// own lists still apply to every connection it makes)
+	CacheNoLists bool `json:"cache_no_lists,omitempty"`
+	NoLookup     bool `json:"no_lookup"` // wellKnownSRV = false
 }
 
 const c16TripRule = "lists are configured and at least one dial attempt reaches the library's control function"
@@ -130,6 +133,7 @@ func c16TripGen(t *rapid.T) c16TripCase {
 	c.Allow = rapid.SampledFrom(c16TripAllow).Draw(t, "allow")
 	c.Deny = rapid.SampledFrom(c16TripDeny).Draw(t, "deny")
 	c.DNSCache = rapid.IntRange(0, 3).Draw(t, "dnsCache") == 0
+	c.CacheNoLists = c.DNSCache && rapid.IntRange(0, 2).Draw(t, "cacheNoLists") == 0
 	c.NoLookup = rapid.IntRange(0, 9).Draw(t, "noLookup") == 0
 	return c
 }
@@ -240,6 +244,9 @@ func c16TripCheck(ctx *vfCtx, c c16TripCase) {
 		var cache *DNSCache
 		if c.DNSCache {
 			cache = NewDNSCache(8, time.Minute, c.Allow, c.Deny)
+			if c.CacheNoLists {
+				cache = NewDNSCache(8, time.Minute, nil, nil)
+			}
 			cache.dialer.ControlContext = wrap("dnscache", cache.dialer.ControlContext, cache.dialer.Control)
 			cache.dialer.Control = nil
 		}
